@@ -172,6 +172,14 @@ theorem idx_empty_file_bytes :
       some [16, 0, 0, 0, 0, 0, 0, 0, 7, 0, 3, 0, 4, 5, 9, 30, 0, 0, 0, 64, 0, 0, 0, 0,
         0, 0, 0, 0, 0, 0, 0, 0, 0, 0, 0, 0, 0, 0, 0, 0] := by decide
 
+/-- test of the model (past disagreement, corpus/C05/parse-duplicate-keys-stable-sort.case):
+`load_index` sorts with the stable `sort_by_key`, so records with equal keys keep their file
+order and the later one wins in `iter_entries`. -/
+theorem load_sort_is_stable :
+    sortByKey [⟨5, 0, 1, 1⟩, ⟨5, 0, 2, 2⟩, ⟨4, 0, 3, 3⟩, ⟨5, 0, 4, 4⟩] =
+      [⟨4, 0, 3, 3⟩, ⟨5, 0, 1, 1⟩, ⟨5, 0, 2, 2⟩, ⟨5, 0, 4, 4⟩] ∧
+    iterBucket (loadB ⟨[⟨5, 0, 1, 1⟩, ⟨5, 0, 2, 2⟩], []⟩) = [⟨5, 0, 2, 2⟩] := by decide
+
 end Bytes
 
 /-- Counter-witness (recorded finding `reload-loses-all-zero-key`, format-level): an entry whose
